@@ -35,8 +35,8 @@ theorem C15_owned_collection_gives_no_shared_access : c15_ownedSharedAccess = []
 -- @theorem C15_no_mutable_access_to_checked_collections_of_borrowed_locks : the collections that can be built over borrowed locks (their try_new tests for duplicates once) give safe mutable access to their underlying container (child_mut, iter_mut, AsMut, DerefMut, IntoIterator for &mut) only when the element type owns its locks — otherwise a lock that is already inside could be added after the test and lock() would wait for a lock the thread holds itself
 theorem C15_no_mutable_access_to_checked_collections_of_borrowed_locks : c15_mutableAccessToChecked = [] := by decide +kernel
 
--- @theorem C15_hold_tokens_follow_the_guard_marker : every struct whose Drop releases a raw lock (MutexRef, RwLockReadRef, RwLockWriteRef) has a PhantomData<R::GuardMarker> field, so it is Send exactly when the raw lock says its guards may be sent (never for the default parking_lot locks); at least three such structs exist
-theorem C15_hold_tokens_follow_the_guard_marker : c15_holdTokenMarkers = [] ∧ holdTokens.length ≥ 3 := by decide +kernel
+-- @theorem C15_hold_tokens_are_never_send : every struct whose Drop releases a raw lock (MutexRef, RwLockReadRef, RwLockWriteRef) has a PhantomData field over a raw pointer, so it is !Send for every raw lock — also for raw locks whose guards may be sent (spin, parking_lot with send_guard): the guards lend &mut to these tokens, and a Send token could be swapped with the token inside another thread's guard (D18, repaired)
+theorem C15_hold_tokens_are_never_send : c15_holdTokenMarkers = [] ∧ holdTokens.length ≥ 3 := by decide +kernel
 
 -- @theorem C15_raw_entry_points_are_unsafe : RawLock, Lockable, Sharable, OwnedLockable, Keyable are unsafe traits; every RawLock method except poison, and guard/data_mut/read_guard/data_ref, are unsafe fns
 theorem C15_raw_entry_points_are_unsafe : c15_unsafeEntryPoints = [] := by decide +kernel
